@@ -92,9 +92,10 @@ Section C15.
     step E_eqb sem e_default cfg st (OGuarded c) = (st, 1).
   Proof. exact (guarded_refused E_eqb sem e_default). Qed.
 
-  Theorem C15_zero_permission_refused : forall (st : @state E) c i,
-    step E_eqb sem e_default cfg_fixed st (OZero c i) = (st, 1).
-  Proof. exact (zero_permission_refused E_eqb sem e_default). Qed.
+  Theorem C15_zero_permission_closed : forall (st : @state E) c i p,
+    get_prop st i = Some p -> is_open p = false ->
+    step E_eqb sem e_default cfg_fixed st (OZero c i) = (st, 0).
+  Proof. exact (zero_permission_closed E_eqb sem e_default). Qed.
 
   (** a special proposal concluded by the tally carries the ballot of an elector of weight 2 *)
   Theorem C15_special_needs_super : forall (st : @state E) p,
@@ -167,7 +168,7 @@ Print Assumptions C15_refusals.
 Print Assumptions C15_refusals_withdraw.
 Print Assumptions C15_failed_tx_frame.
 Print Assumptions C15_guarded_refused.
-Print Assumptions C15_zero_permission_refused.
+Print Assumptions C15_zero_permission_closed.
 Print Assumptions C15_special_needs_super.
 Print Assumptions C15_final.
 Print Assumptions C15_manage_once.
